@@ -7,8 +7,10 @@
 
 mod checks;
 mod dirmodel;
+mod linz;
 mod orch;
 mod plan;
+mod resp;
 mod rng;
 mod scan;
 mod seqeng;
